@@ -83,6 +83,16 @@ def run(ctx):
         for _ in range(10):
             pairs.append((Category.parse(a), rng.choice(inv)))
             pairs.append((rng.choice(inv), Category.parse(a)))
+    # the rules that are not pattern pairs (conjunction, punctuation, type changing) test their operands
+    # against literal categories: every such literal with one feature or one slash changed, on either side
+    near = []
+    for a in special:
+        for _ in range(8):
+            near.append(gen_cat.perturb(rng, Category.parse(a), feats, slashes=('/', '\\', '|')))
+    for a in special:
+        for b in near:
+            pairs.append((Category.parse(a), b))
+            pairs.append((b, Category.parse(a)))
     extra = []
     for x, y in pairs[:3000]:
         try:
